@@ -30,11 +30,14 @@ type controllingSelector struct {
 	agent         *Agent
 	nominatedPair *CandidatePair
 	log           logging.LeveledLogger
+	// ackedNomination is the highest renomination value whose success response was applied.
+	ackedNomination *uint32
 }
 
 func (s *controllingSelector) Start() {
 	s.startTime = time.Now()
 	s.nominatedPair = nil
+	s.ackedNomination = nil
 }
 
 func (s *controllingSelector) isNominatable(c Candidate) bool {
@@ -204,9 +207,18 @@ func (s *controllingSelector) HandleSuccessResponse(
 		// If this is a renomination request (has nomination value), always update the selected pair
 		// If it's a standard nomination (no value), only set if no pair is selected yet
 		if pendingRequest.nominationValue != nil {
-			s.log.Infof("Renomination success response received for pair %s (nomination value: %d), switching to this pair",
-				pair, *pendingRequest.nominationValue)
-			s.agent.setSelectedPair(pair)
+			// Responses can arrive in a different order than the requests were sent. The
+			// controlled agent keeps the highest value it accepted, so only a response to
+			// a newer renomination than the last applied one may move the selection.
+			if s.ackedNomination == nil || *pendingRequest.nominationValue > *s.ackedNomination {
+				s.log.Infof("Renomination success response received for pair %s (nomination value: %d), switching to this pair",
+					pair, *pendingRequest.nominationValue)
+				s.ackedNomination = pendingRequest.nominationValue
+				s.agent.setSelectedPair(pair)
+			} else {
+				s.log.Debugf("Ignoring success response for superseded renomination (value %d, applied %d)",
+					*pendingRequest.nominationValue, *s.ackedNomination)
+			}
 		} else if selectedPair == nil {
 			s.agent.setSelectedPair(pair)
 		}
